@@ -108,6 +108,7 @@ pub fn supported(p: &Program) -> bool {
                 | K::WithMut { .. }
                 | K::Await { .. }
                 | K::AwaitSpun { .. }
+                | K::Await2 { .. }
                 | K::CellRead { .. }
                 | K::CellWrite { .. }
                 | K::Spawn { .. }
@@ -283,6 +284,32 @@ fn succ(p: &Program, s: &XSt, t: usize, variant: Variant) -> Vec<XSt> {
                 set_rf(&mut e, wk);
                 push_ev(&mut s2, e);
                 out.push(fin(s2, Res::V(w.wval)));
+            }
+        }
+        K::Await2 { a, b, mo, wa, wb } => {
+            // the last iteration of the loop: a load of `a` reading wa, then a load of `b` reading wb
+            let (fa, fb) = (floor(s, a), floor(s, b));
+            for ia in fa..s.mo[a].len() {
+                let ka = s.mo[a][ia];
+                if find(s, ka).wval != wa {
+                    continue;
+                }
+                for ib in fb..s.mo[b].len() {
+                    let kb = s.mo[b][ib];
+                    if find(s, kb).wval != wb {
+                        continue;
+                    }
+                    let mut s2 = s.clone();
+                    let mut e1 = mk_early(EK::R, a, dl(mo));
+                    e1.rval = wa;
+                    set_rf(&mut e1, ka);
+                    push_ev(&mut s2, e1);
+                    let mut e2 = mk(EK::R, b, dl(mo));
+                    e2.rval = wb;
+                    set_rf(&mut e2, kb);
+                    push_ev(&mut s2, e2);
+                    out.push(fin(s2, Res::U));
+                }
             }
         }
         K::AwaitSpun { a, mo, want } => {
